@@ -206,6 +206,30 @@ static const char *bufstate(const void *ob, const void *cb)
 	return "dup";
 }
 
+/* a fresh buffer whose used part does not hold what the original's holds is reported as `differ` */
+static const char *bufstate_c(const void *ob, const void *cb, size_t used)
+{
+	const char *st = bufstate(ob, cb);
+	if ((!strcmp(st, "dup") || !strcmp(st, "trim")) && ob && used && memcmp(ob, cb, used)) return "differ";
+	return st;
+}
+
+/* string tables: every bucket with index, use count and bytes */
+static const char *strtable_state(const str_table_t *a, const str_table_t *b)
+{
+	const char *st = bufstate(a->bucket_ptrs.data, b->bucket_ptrs.data);
+	size_t i;
+	if (strcmp(st, "dup") && strcmp(st, "trim")) return st;
+	if (a->next_index != b->next_index || a->bucket_ptrs.used != b->bucket_ptrs.used) return "differ";
+	for (i = 0; i < a->bucket_ptrs.used; ++i) {
+		const str_bucket_t *x = ((str_bucket_t **)a->bucket_ptrs.data)[i], *y = ((str_bucket_t **)b->bucket_ptrs.data)[i];
+		if (!x || !y) { if (x != y) return "differ"; continue; }
+		if (x == y) return "alias";
+		if (x->index != y->index || x->refcount != y->refcount || strcmp(x->string, y->string)) return "differ";
+	}
+	return st;
+}
+
 /* ref slot: `before` is the referenced object's refcount before the copy */
 static const char *refstate(const void *oref, const void *cref, size_t before)
 {
@@ -237,19 +261,19 @@ static void probe(const void *o, const void *c, const rcsnap_t *s, char *buf, si
 	int k = snprintf(buf, n, "rc=%zu destroy=%d copy=%d samehooks=%d", cb->refcount, cb->destroy != NULL, cb->copy != NULL,
 			 cb->destroy == ob->destroy && cb->copy == ob->copy);
 	switch (E.kind) {
-	case K_IDT: { const sqfs_id_table_t *a = o, *b = c; snprintf(buf + k, n - k, " bufs=%s refs=", bufstate(a->ids.data, b->ids.data)); break; }
-	case K_FRAGT: { const sqfs_frag_table_t *a = o, *b = c; snprintf(buf + k, n - k, " bufs=%s refs=", bufstate(a->table.data, b->table.data)); break; }
+	case K_IDT: { const sqfs_id_table_t *a = o, *b = c; snprintf(buf + k, n - k, " bufs=%s refs=", bufstate_c(a->ids.data, b->ids.data, a->ids.used * a->ids.size)); break; }
+	case K_FRAGT: { const sqfs_frag_table_t *a = o, *b = c; snprintf(buf + k, n - k, " bufs=%s refs=", bufstate_c(a->table.data, b->table.data, a->table.used * a->table.size)); break; }
 	case K_FILE: { const sqfs_file_stdio_t *a = o, *b = c; snprintf(buf + k, n - k, " bufs=%s refs=", a->fd == b->fd ? "alias" : "dup"); break; }	/* slot 0 = the descriptor */
 	case K_META: { const sqfs_meta_reader_t *a = o, *b = c;
 		snprintf(buf + k, n - k, " bufs= refs=%s,%s", refstate(a->file, b->file, s->rc[0]), refstate(a->cmp, b->cmp, s->rc[1])); break; }
 	case K_DATA: { const sqfs_data_reader_t *a = o, *b = c;
-		snprintf(buf + k, n - k, " bufs=%s,%s refs=%s,%s,%s", bufstate(a->data_block, b->data_block), bufstate(a->frag_block, b->frag_block),
+		snprintf(buf + k, n - k, " bufs=%s,%s refs=%s,%s,%s", bufstate_c(a->data_block, b->data_block, a->data_blk_size), bufstate_c(a->frag_block, b->frag_block, a->frag_blk_size),
 			 refstate(a->frag_tbl, b->frag_tbl, s->rc[0]), refstate(a->file, b->file, s->rc[1]), refstate(a->cmp, b->cmp, s->rc[2])); break; }
 	case K_DIR: { const sqfs_dir_reader_t *a = o, *b = c;
 		snprintf(buf + k, n - k, " bufs=%s refs=%s,%s", (a->flags & SQFS_DIR_READER_DOT_ENTRIES) ? bufstate(a->dcache.root, b->dcache.root) : "null",
 			 refstate(a->meta_inode, b->meta_inode, s->rc[0]), refstate(a->meta_dir, b->meta_dir, s->rc[1])); break; }
 	case K_XRD: { const sqfs_xattr_reader_t *a = o, *b = c;
-		snprintf(buf + k, n - k, " bufs=%s refs=%s,%s", bufstate(a->id_block_starts, b->id_block_starts),
+		snprintf(buf + k, n - k, " bufs=%s refs=%s,%s", bufstate_c(a->id_block_starts, b->id_block_starts, a->num_id_blocks * sizeof(sqfs_u64)),
 			 refstate(a->kvrd, b->kvrd, s->rc[0]), refstate(a->idrd, b->idrd, s->rc[1])); break; }
 	case K_XWR: { const sqfs_xattr_writer_t *a = o, *b = c;
 		/* buffers: key bucket array, value bucket array, pair array, tree root; self-references: list head/tail, tree context */
@@ -257,8 +281,8 @@ static void probe(const void *o, const void *c, const rcsnap_t *s, char *buf, si
 		const char *last = b->kv_block_last == NULL ? (a->kv_block_last == NULL ? "null" : "lost") : (b->kv_block_last == a->kv_block_last ? "alias" : "own");
 		const char *ctx = b->kv_block_tree.key_context == (void *)b ? "own" : (b->kv_block_tree.key_context == (void *)a ? "alias" : "other");
 		/* 5th buffer slot: the struct's own fields (what key_context gives access to): always a fresh allocation */
-		snprintf(buf + k, n - k, " bufs=%s,%s,%s,%s,dup refs= self=%s,%s,%s", bufstate(a->keys.bucket_ptrs.data, b->keys.bucket_ptrs.data),
-			 bufstate(a->values.bucket_ptrs.data, b->values.bucket_ptrs.data), bufstate(a->kv_pairs.data, b->kv_pairs.data),
+		snprintf(buf + k, n - k, " bufs=%s,%s,%s,%s,dup refs= self=%s,%s,%s", strtable_state(&a->keys, &b->keys),
+			 strtable_state(&a->values, &b->values), bufstate_c(a->kv_pairs.data, b->kv_pairs.data, a->kv_pairs.used * a->kv_pairs.size),
 			 bufstate(a->kv_block_tree.root, b->kv_block_tree.root), first, last, ctx); break; }
 	default: snprintf(buf + k, n - k, " bufs= refs="); break;
 	}
